@@ -111,7 +111,7 @@ func (p *Peer) Logon(hb int, method string, extra ...fixref.Field) []byte {
 	fs := []fixref.Field{fixref.F(TEncrypt, method), fixref.F(THeartBt, strconv.Itoa(hb))}
 	return p.Msg("A", append(fs, extra...)...)
 }
-func (p *Peer) Heartbeat() []byte           { return p.Msg("0") }
+func (p *Peer) Heartbeat() []byte            { return p.Msg("0") }
 func (p *Peer) TestRequest(id string) []byte { return p.Msg("1", fixref.F(TTestReqID, id)) }
 func (p *Peer) Resend(b, e int) []byte {
 	return p.Msg("2", fixref.F(TBeginSeq, strconv.Itoa(b)), fixref.F(TEndSeq, strconv.Itoa(e)))
